@@ -242,6 +242,12 @@ func (dir *ufsDir) dotu(path string, d os.FileInfo, upool Users, sysMode *syscal
 	}
 }
 
+// plainName reports whether name is a single path element that stays inside
+// the directory it is applied to.
+func plainName(name string) bool {
+	return name != "" && name != "." && name != ".." && !strings.Contains(name, "/")
+}
+
 func (*Ufs) ConnOpened(conn *Conn) {
 	if conn.Srv.Debuglevel > 0 {
 		log.Println("connected")
@@ -278,7 +284,7 @@ func (ufs *Ufs) Attach(req *SrvReq) {
 	// You can think of the ufs.Root as a 'chroot' of a sort.
 	// clients attach are not allowed to go outside the
 	// directory represented by ufs.Root
-	fid.path = filepath.Join(ufs.Root, tc.Aname)
+	fid.path = filepath.Join(ufs.Root, filepath.Join("/", tc.Aname))
 
 	req.Fid.Aux = fid
 	err := fid.stat()
@@ -293,7 +299,7 @@ func (ufs *Ufs) Attach(req *SrvReq) {
 
 func (*Ufs) Flush(req *SrvReq) {}
 
-func (*Ufs) Walk(req *SrvReq) {
+func (ufs *Ufs) Walk(req *SrvReq) {
 	fid := req.Fid.Aux.(*ufsFid)
 	tc := req.Tc
 
@@ -312,8 +318,24 @@ func (*Ufs) Walk(req *SrvReq) {
 	path := fid.path
 	i := 0
 	for ; i < len(tc.Wname); i++ {
-		p := path + "/" + tc.Wname[i]
-		st, err := os.Lstat(p)
+		var p string
+		var st os.FileInfo
+		var err error = Enoent
+		switch name := tc.Wname[i]; {
+		case name == "..":
+			// ".." at the exported root stays at the root
+			p = path
+			if path != filepath.Clean(ufs.Root) {
+				p = filepath.Dir(path)
+			}
+			st, err = os.Lstat(p)
+		case name == ".":
+			p = path
+			st, err = os.Lstat(p)
+		case plainName(name):
+			p = path + "/" + name
+			st, err = os.Lstat(p)
+		}
 		if err != nil {
 			if i == 0 {
 				req.RespondError(Enoent)
@@ -359,6 +381,11 @@ func (*Ufs) Create(req *SrvReq) {
 	err := fid.stat()
 	if err != nil {
 		req.RespondError(err)
+		return
+	}
+
+	if !plainName(tc.Name) {
+		req.RespondError(&Error{"invalid file name", EINVAL})
 		return
 	}
 
@@ -648,9 +675,13 @@ func (u *Ufs) Wstat(req *SrvReq) {
 		// cwd.
 		var destpath string
 		if dir.Name[0] == '/' {
-			destpath = filepath.Join(u.Root, dir.Name)
+			destpath = filepath.Join(u.Root, filepath.Join("/", dir.Name))
 			fmt.Printf("/ results in %s\n", destpath)
 		} else {
+			if !plainName(dir.Name) {
+				req.RespondError(&Error{"invalid file name", EINVAL})
+				return
+			}
 			fiddir, _ := path.Split(fid.path)
 			destpath = filepath.Join(fiddir, dir.Name)
 			fmt.Printf("rel  results in %s\n", destpath)
